@@ -55,6 +55,13 @@ func (w *world) monitorAfterWrite(i int, files map[string][]byte, cr callResult)
 	if w.c.BadName {
 		// names outside the model (path separators): Write may fail, the target must stay complete
 		w.monitorReader(fmt.Sprintf("after write #%d with an invalid file name (err=%s)", i, cr.errName))
+		if cr.errName == "nil" && allValid(files) {
+			// a Write with valid names that returned nil (also after a failed one on the same Dir):
+			// "after which the target shows the new set"
+			if desc, m := w.observeTarget(); m == nil || !sameMap(m, files) {
+				w.res.Violate("target-not-new-set", fmt.Sprintf("Write #%d returned nil but target resolves to %s", i, desc), w.c)
+			}
+		}
 		return
 	}
 	if cr.errName != "nil" {
